@@ -29,6 +29,11 @@ GROUPS = {
     "Pydantic": ("_tensor_type_base.py", ["TensorTypeBase.__get_pydantic_core_schema__", "unwrap_type_alias", "_resolve_numpy_dtype"]),
     "Symbolic": ("_symbolic_expressions.py", ["*"]),
     "Errors": ("_errors.py", ["*"]),
+    "Deps": ("_dependency_utilities.py", ["*"]),
+    "Logs": ("_log_utils.py", ["*"]),
+    "Constants": ("_constants.py", ["*"]),
+    # every logging call of the checker (they are dropped from the other groups): in debug mode they run, and must not change a verdict
+    "LogCalls": ("<logger calls>", ["_dltype_context.py", "_core.py", "_parser.py", "_tensor_type_base.py"]),
 }
 # inner functions that translate_core.py compiles (their statements are not part of the snapshot of the enclosing function)
 COMPILED_INNER = {"dltyped": ["wrapper"], "dltyped_namedtuple": ["validated_new"], "dltyped_dataclass": ["new_init"],
@@ -96,6 +101,14 @@ def _find(mod: ast.Module, qual: str):
 
 def statements(lib_dir: str, group: str) -> list[tuple[str, list[str]]]:
     fname, names = GROUPS[group]
+    if fname == "<logger calls>":
+        out = []
+        for f in names:
+            with open(os.path.join(lib_dir, f)) as fh:
+                mod = ast.parse(fh.read(), filename=f)
+            calls = [ast.unparse(n) for n in ast.walk(mod) if isinstance(n, ast.Call) and ast.unparse(n.func).startswith("_logger.")]
+            out.append((f, calls))
+        return out
     with open(os.path.join(lib_dir, fname)) as fh:
         mod = ast.parse(fh.read(), filename=fname)
     out = []
